@@ -5,6 +5,7 @@ pub mod edwards;
 pub mod field;
 pub mod scalar;
 pub mod scalarmul;
+pub mod vector;
 
 pub fn exec(req: &Req) -> Option<Resp> {
     let op = req.op.as_str();
@@ -27,6 +28,9 @@ pub fn exec(req: &Req) -> Option<Resp> {
 pub fn oracle(req: &Req, got: &Resp) -> Result<(), String> {
     if req.op.starts_with("fe.") {
         return field::oracle(req, got);
+    }
+    if req.op.starts_with("v2.") || req.op.starts_with("vi.") {
+        return vector::oracle(req, got);
     }
     match exec(req) {
         None => Err(format!("no model for op {}", req.op)),
